@@ -649,10 +649,28 @@ func (x *Exec) execInstr(st *State, fr *Frame, in ssa.Instruction) {
 		if s.len < n {
 			panic(goPanic{"runtime error: cannot convert slice to array pointer"})
 		}
-		if s.off != 0 {
-			panic(x.unsupported("SliceToArrayPointer with offset"))
+		if s.off != 0 || n != len(x.load(st, s.base).(*ArrayV).e) {
+			// a pointer into the middle of an array cannot be expressed; when the
+			// result is only dereferenced (array conversion) a copy is equivalent
+			onlyLoads := true
+			if refs := i.Referrers(); refs != nil {
+				for _, r := range *refs {
+					if u, ok := r.(*ssa.UnOp); !ok || u.Op != token.MUL {
+						onlyLoads = false
+					}
+				}
+			}
+			if !onlyLoads {
+				panic(x.unsupported("SliceToArrayPointer with offset whose result escapes"))
+			}
+			arr := &ArrayV{e: make([]Value, n)}
+			for k := 0; k < n; k++ {
+				arr.e[k] = x.load(st, x.sliceElemPtr(s, k))
+			}
+			x.set(st, fr, i, st.alloc(arr))
+		} else {
+			x.set(st, fr, i, s.base)
 		}
-		x.set(st, fr, i, s.base)
 		fr.pc++
 	case *ssa.TypeAssert:
 		x.execTypeAssert(st, fr, i)
